@@ -86,11 +86,13 @@ def error_key(ver, tag, e, doc):
     return "%s:%s" % (path, kw)
 
 
-def check_json(P, ver, prefix, s, sort, minimal, o=None):
+def check_json(P, ver, prefix, s, sort, minimal, o=None, calls_before=()):
     L = lib()
     P.evaluations += 1
     tag = T.SCHEMA_TAG[prefix if ver != "2" else ""]
     case = {"ver": ver, "vector": s, "sort": sort, "minimal": minimal}
+    if calls_before:
+        case["calls_before"] = [list(c) for c in calls_before]  # earlier as_json() calls on the SAME object
     if o is None:
         ok, o = obs.call(L.CLS[ver], s)
         if not ok:
@@ -126,7 +128,16 @@ def judge_doc(P, ver, tag, d, case):
 
 def check_case(P, case):
     ver = case["ver"]
-    check_json(P, ver, T.split_prefix(ver, case["vector"])[0], case["vector"], case["sort"], case["minimal"])
+    o = None
+    before = case.get("calls_before") or []
+    if before:
+        ok, o = obs.call(lib().CLS[ver], case["vector"])
+        if not ok:
+            o = None
+        else:
+            for so, mi in before:
+                obs.call(o.as_json, sort=so, minimal=mi)
+    check_json(P, ver, T.split_prefix(ver, case["vector"])[0], case["vector"], case["sort"], case["minimal"], o, before)
 
 
 def vectors_for(rng, ver, n):
@@ -214,11 +225,13 @@ def shard(P, ver, idx, nshards, n, seed):
                 P.violation("construct", "C10:v%s:exception:%s" % (ver, obs.exc_name(o)), {"ver": ver, "vector": s,
                             "sort": False, "minimal": False}, error=repr(o))
                 continue
+            before = []
             for sort in (False, True):
                 for minimal in (False, True):
                     P.dist((s, sort, minimal))
                     P.stratum("v%s:%s:sort=%s:minimal=%s" % (ver, "official-order" if order == "official" else "random-order", sort, minimal))
-                    check_json(P, ver, p, s, sort, minimal, o)
+                    check_json(P, ver, p, s, sort, minimal, o, tuple(before))
+                    before.append((sort, minimal))
         if j % 499 == 0:
             P.sample({"ver": ver, "vector": s, "sort": True, "minimal": False})
 
